@@ -277,6 +277,82 @@ func Run(r *mc.Run) {
 		"combinations": "1.5 KiB paragraph x every sibling size; 40 KiB x {none, 512, 31000, 32768}; 140 KiB x {none, 31000}; each x 6 control encodings; data file of 1 MiB+17 (thorough also 3 MiB+511) x 6 data encodings",
 		"filler":       "gen.PatternBytes (incompressible)"}, len(szIns), func(i int, st *mc.Stats) bool { return runIns(r, "sizes", c, szIns[i:i+1], st) })
 
+	// ---- scenario 1g: the OTHER FILES of the control tar: entries in subdirectories whose base name is "control" (with and
+	// without a paragraph inside), near names, links, spellings of the real entry, the real entry first / middle / last
+	// among 1..40 siblings. Expected: the paragraph packaged as the top-level ./control.
+	{
+		type cfg struct {
+			name    string
+			entries []string
+			kinds   map[string]string
+		}
+		var cfgs []cfg
+		for _, d := range []string{"templates.d", "conffiles.d", "po"} {
+			for _, kind := range []string{"", "paragraph"} {
+				k := map[string]string{}
+				if kind != "" {
+					k["./"+d+"/control"] = kind
+				}
+				cfgs = append(cfgs,
+					cfg{fmt.Sprintf("./%s/control (%s) before ./control", d, kind), []string{"./", "./" + d + "/", "./" + d + "/control", "./control", "./md5sums"}, k},
+					cfg{fmt.Sprintf("./%s/control (%s) after ./control", d, kind), []string{"./", "./control", "./" + d + "/", "./" + d + "/control"}, k})
+			}
+		}
+		for _, n := range []string{"./control.old", "./controls", "./xcontrol", "./Control", "./control~", "./control.d/"} {
+			for _, kind := range []string{"", "paragraph"} {
+				if strings.HasSuffix(n, "/") && kind != "" {
+					continue
+				}
+				k := map[string]string{}
+				if kind != "" {
+					k[n] = kind
+				}
+				cfgs = append(cfgs, cfg{fmt.Sprintf("%s (%s) before ./control", n, kind), []string{n, "./control"}, k},
+					cfg{fmt.Sprintf("%s (%s) after ./control", n, kind), []string{"./control", n}, k})
+			}
+		}
+		cfgs = append(cfgs,
+			cfg{"symlink ./controlx -> control before", []string{"./controlx", "./control"}, map[string]string{"./controlx": "symlink:control"}},
+			cfg{"symlink ./postinst -> control after", []string{"./control", "./postinst"}, map[string]string{"./postinst": "symlink:control"}},
+			cfg{"hard link ./control.lnk -> ./control after", []string{"./control", "./control.lnk"}, map[string]string{"./control.lnk": "hardlink:./control"}},
+			cfg{"spelling ././control", []string{"./md5sums", "././control"}, nil},
+			cfg{"spelling control after ./ directory", []string{"./", "control", "md5sums"}, nil},
+			cfg{"spelling ./control/../control", []string{"./postinst", "./control/../control"}, nil})
+		for _, n := range []int{1, 2, 5, 40} {
+			var sib []string
+			for i := 0; i < n; i++ {
+				sib = append(sib, fmt.Sprintf("./sibling%02d", i))
+			}
+			for _, pos := range []int{0, n / 2, n} {
+				es := append(append(append([]string{}, sib[:pos]...), "./control"), sib[pos:]...)
+				cfgs = append(cfgs, cfg{fmt.Sprintf("./control at position %d among %d siblings", pos, n), es, nil})
+			}
+		}
+		ccomps := []string{"gz", "none"}
+		if has(comps, "zst") {
+			ccomps = append(ccomps, "zst")
+		}
+		var eins []In
+		for _, cf := range cfgs {
+			for _, cc := range ccomps {
+				in := mkIn(ps[1], cf.entries, dfs[1], cc, "gz", "", "")
+				in.Model.EntryKinds = cf.kinds
+				in.Name = fmt.Sprintf("control tar (%s) %v: %s", cc, cf.entries, cf.name)
+				if len(cf.entries) > 8 {
+					in.Name = fmt.Sprintf("control tar (%s): %s", cc, cf.name)
+				}
+				eins = append(eins, in)
+			}
+		}
+		r.Scenario("control-tar-entries", map[string]interface{}{"configurations": len(cfgs), "control_encodings": ccomps,
+			"families": []string{"./<dir>/control for dir in templates.d conffiles.d po, plain and holding a valid OTHER paragraph, before / after ./control",
+				"near names ./control.old ./controls ./xcontrol ./Control ./control~ (plain / other paragraph) and directory ./control.d/, before / after",
+				"symlink before, symlink after, hard link to ./control after", "spellings ././control, control, ./control/../control of the real entry",
+				"./control first / middle / last among 1, 2, 5, 40 siblings"},
+			"not_included": "a directory or link named exactly ./control; the absolute spelling /control (not a member dpkg-deb can produce)"},
+			len(eins), func(i int, st *mc.Stats) bool { return runIns(r, "control-tar-entries", c, eins[i:i+1], st) })
+	}
+
 	// ---- scenario 1f: the control paragraph as a FIELD MODEL (fields of deb.Control by reflection, an alphabet of legal
 	// values per field incl. the Policy-enumerated ones, paragraph-only fields, accepted debian-binary contents):
 	// baseline + every execution with <= k deviations.
@@ -470,6 +546,9 @@ func Run(r *mc.Run) {
 		"further_member_names": secondNames("gz", "gz"), "further_member_positions": "0..3", "further_member_inputs": nSecond,
 		"orders": MapOrderNote, "repetitions": MapOrderReps}, len(det),
 		func(i int, st *mc.Stats) bool { return runIns(r, "map-orders", c, det[i:i+1], st) })
+
+	// ---- last scenario: the process-global xz dictionary limit (one goroutine, nothing else running)
+	knobScenario(r, c, comps)
 }
 
 // paramSelfCheck makes sure the parameter variants really produce the stream properties they are named after
